@@ -7,6 +7,44 @@ import datetime as _dt
 from . import common
 
 EPOCH_DATE = _dt.date(1970, 1, 1)
+EPOCH = _dt.datetime(1970, 1, 1, tzinfo=_dt.UTC)
+US = _dt.timedelta(microseconds=1)
+
+
+def us(dt):
+    """micro-seconds since 1970-01-01T00:00:00Z of a timezone-aware datetime"""
+    return (dt - EPOCH) // US
+
+
+def from_us(n):
+    return EPOCH + _dt.timedelta(microseconds=n)
+
+
+class _AnyDatetime(type):
+    """the stand-in datetime class must still recognise real datetimes in isinstance()"""
+
+    def __instancecheck__(cls, obj):
+        return isinstance(obj, _dt.datetime)
+
+
+def fake_datetime(clock):
+    """subclass of datetime whose now() is read from `clock.now`; installed as an attribute of the
+    module under test, the real datetime module is never touched"""
+
+    class FakeDT(_dt.datetime, metaclass=_AnyDatetime):
+        @classmethod
+        def now(cls, tz=None):  # pylint: disable=arguments-differ
+            return clock.now
+
+    return FakeDT
+
+
+def fake_datetime_module(clock):
+    """namespace standing in for `import datetime` inside pl/schedule.py"""
+    import types
+
+    return types.SimpleNamespace(datetime=fake_datetime(clock), UTC=_dt.UTC, timedelta=_dt.timedelta,
+                                 time=_dt.time, date=_dt.date, timezone=_dt.timezone)
 
 
 def day_number(d):
